@@ -30,6 +30,7 @@ def explore(
     on_dispatch=None,
     count_states=True,
     sig=None,
+    rebuild="fresh",
 ):
     """Walk every history of ``spec`` with ``filters`` installed.
 
@@ -40,6 +41,10 @@ def explore(
         dispatcher's memo so that it could interfere if it were able to).
     on_dispatch(live, (j, m)) is called after every accepted dispatch (e.g. to
         drive a twin object in lock-step).
+    rebuild: "fresh" = every non-leftmost branch gets newly constructed objects;
+        "reset" = ONE dispatcher (and its observers) is reused for the whole
+        tree, each branch being reached by reset() + replay of its prefix - the
+        way a tree search or an RL loop uses a dispatcher.
     """
     ref = Ref(spec)
     # one instance object for all branches: nothing may modify it (C14), and a
@@ -69,12 +74,19 @@ def explore(
         if on_dispatch is not None:
             on_dispatch(live, c)
 
+    reused = []
+
     def build(hist):
         inst = shared_inst
-        d = impl.mk_dispatcher(inst, filters)
-        live = Live(inst, d)
-        if make_extra is not None:
-            live.extra = make_extra(inst, d)
+        if rebuild == "reset" and reused:
+            live = reused[0]
+            live.d.reset()
+        else:
+            d = impl.mk_dispatcher(inst, filters)
+            live = Live(inst, d)
+            if make_extra is not None:
+                live.extra = make_extra(inst, d)
+            reused.append(live)
         for k, c in enumerate(hist):
             do_dispatch(live, c, hist[:k])
         return live
